@@ -22,10 +22,13 @@ def run(tier, seed, replay):
     t = vlib.tlc(os.path.join(vlib.SPEC, "mc", "MC_CtlTables.tla"), os.path.join(vlib.SPEC, "mc", "MC_CtlTables.cfg"), timeout=1800)
     rows = vlib.tlc_replay_lines(t.out)
     dec = [None] * 512
+    irs = [None] * 512
     classes, table = [], {}
     for row in rows:
         if row["kind"] == "decode":
             dec[row["a"]] = row["row"]
+        elif row["kind"] == "irstep":
+            irs[row["a"]] = row["row"]
         else:
             table.setdefault(row["class"], [None] * 256)[row["ir"]] = row["row"]
     if any(d is None for d in dec) or any(any(x is None for x in t_) for t_ in table.values()):
@@ -43,6 +46,12 @@ def run(tier, seed, replay):
     if n["mismatches"] or n["missing_class"]:
         v.violation("ctl:nextaddr", "successor sets (over all flag / ALU-condition / interrupt inputs) of the real next-address function differ from Signals!NextAddr for %d (word, IR) pairs [%d rows evaluated], e.g. %s"
                     % (n["mismatches"], n["rows"], json.dumps(n["first"][:3])), n["first"])
+    ip = os.path.join(vlib.WORK, "irstep_ref.json")
+    json.dump(irs, open(ip, "w"))
+    ir = vlib.vh_json(["irstep-check", ip])
+    if ir["mismatches"]:
+        v.violation("ctl:irstep", "instruction-register update / halt detection of one real clock edge differs from Micro.tla on %d of %d (word, bus byte) "
+                    "pairs, e.g. %s" % (ir["mismatches"], ir["rows"], json.dumps(ir["first"][:3])), ir["first"])
     # (3) the data-driven loops terminate: all operand pairs on the real machine
     md = vlib.vh_json(["muldiv-term"])
     for e in md:
@@ -50,7 +59,8 @@ def run(tier, seed, replay):
             v.violation("ctl:loop:" + e["op"], "%s does not terminate / does not reach STOP: %s" % (e["op"], json.dumps(e["nonterminating"][:3])), e)
     cov = {
         "states": r.distinct + t.distinct, "transitions": r.generated + t.generated,
-        "traces_validated_against_impl": d["rows"] + n["rows"],
+        "traces_validated_against_impl": d["rows"] + n["rows"] + ir["rows"],
+        "irstep_rows_compared": ir["rows"],
         "samples": [{"decode_row_word_0x006_ir_0": dec[6][0]}, {"nextaddr_class": classes[-1], "ir": 16, "first_8": table[classes[-1]][16][:8]},
                     {"muldiv": md}],
         "exhaustive": True,
@@ -60,7 +70,7 @@ def run(tier, seed, replay):
         "rule": "TLC explores the abstract control machine (maddr, IR) of the tree's control store with every data-dependent input "
                 "nondeterministic, from reset and from all 15 fetch words with all 256 loaded bytes; Signals.tla is compared with the "
                 "real decode (512 x 256) and the real next-address function (512 x 2^17 forced through verif_restore); MUL/DIV "
-                "loops run on the real machine for all 65 536 pairs x carry",
+                "loops run on the real machine for all 16 register pairs x all 65 536 value pairs x carry; IR update / halt detection of one real edge compared for all 512 x 256 (word, bus byte) pairs",
     }
     return v.finish("model_checking", cov, ["TLC", "verif_restore/verif_snapshot hooks (every restored state is read back)",
                                             "definition of the defined opcode sets in MC_Ctl.tla (Appendix A of DESIGN.md)"])
